@@ -103,7 +103,8 @@ type LineConfig struct {
 	// as a fraction of fragment height (default: 0.5)
 	LineHeightTolerance float64
 
-	// MinLineWidth is the minimum width for a valid line (default: 5 points)
+	// MinLineWidth is the minimum width for a valid line (default: 5 points).
+	// Narrower lines are dropped only when they contain no visible text.
 	MinLineWidth float64
 
 	// AlignmentTolerance is the tolerance for alignment detection (default: 10 points)
@@ -406,8 +407,9 @@ func (d *LineDetector) buildLines(lineGroups [][]text.TextFragment, pageWidth fl
 		// Calculate indentation (distance from left margin)
 		line.Indentation = line.BBox.X
 
-		// Skip lines that are too narrow
-		if line.BBox.Width < d.config.MinLineWidth {
+		// Skip lines that are too narrow, unless they carry visible text
+		// (a single-character line, a list number, a page number ...)
+		if line.BBox.Width < d.config.MinLineWidth && isWhitespaceOnly(line.Text) {
 			continue
 		}
 
